@@ -292,7 +292,7 @@ theorem appendTail_same {f : Forest} {p : Nat} {t : HTree} {vp : Value} {l r : L
     have sX : SiteAt (f.editAt (some p) (fun _ => l' ++ a.setValue (.text (x ++ y)) :: t :: r')) p vp
         ((l' ++ [a.setValue (.text (x ++ y))]) ++ t :: r') := by
       have := sp.edit (fun _ => l' ++ a.setValue (.text (x ++ y)) :: t :: r') (by
-        simp only [handlesList_append, handlesList_cons, setValue_handles, handlesList_nil, List.append_nil,
+        simp only [fs_handlesList_append, handlesList_cons, setValue_handles, handlesList_nil, List.append_nil,
           List.append_assoc]
         refine (List.Sublist.refl _).append ((List.Sublist.refl _).append ((List.Sublist.refl _).append ?_))
         exact List.sublist_append_right _ _)
